@@ -15,7 +15,7 @@ from vf.dual import Dual
 ID = "C13"
 TITLE = "Hand-coded derivative functions equal the true derivatives of their parents"
 LEVEL = "exploration"
-BUDGET = {"quick": 6000, "thorough": 2000000}
+BUDGET = {"quick": 12000, "thorough": 2000000}
 SHRINK = {"quick": True, "thorough": True}
 RULE = (
     "Hypothesis draws an oil (as C12: T, API, gas gravity, GOR with p_b > 50 psia), a pressure in [15, 2.5 p_b] "
